@@ -14,7 +14,7 @@ from symx import core, patch
 from symx.fs import SymFS
 
 
-def run_taster(mods, ref, corrs, nofail, ctx, coords=False):
+def run_taster(mods, ref, corrs, nofail, ctx, coords=False, cli=False):
     Taster = mods['amr_kitchen.taste.taste'].Taster
     fs = SymFS()
     ref.write_symfs(fs, '/work/plt')
@@ -31,8 +31,23 @@ def run_taster(mods, ref, corrs, nofail, ctx, coords=False):
         stubs = {'amr_kitchen.plotfile_cooker': {'float': sym_float}}
     with patch.Patched(mods, fs, stubs=stubs), common.quiet() as buf:
         try:
-            t = Taster('plt', nofail=nofail, boxes_coordinates=coords)
-            ok = bool(t)
+            if cli:
+                # the command-line entry point in failing mode (`taste plt [-bc]`): it must end in an exception / non-zero exit
+                import sys
+                old_argv = sys.argv
+                sys.argv = ['taste', 'plt'] + (['--box_coords'] if coords else [])
+                try:
+                    mods['amr_kitchen.taste.cli'].main()
+                finally:
+                    sys.argv = old_argv
+                ok = True
+            else:
+                t = Taster('plt', nofail=nofail, boxes_coordinates=coords)
+                ok = bool(t)
+        except SystemExit as e:
+            if e.code not in (None, 0):
+                return 'raised', 'exit status %r' % (e.code,), fs
+            ok = True
         except Exception as e:
             return 'raised', '%s: %s' % (type(e).__name__, str(e)[:200]), fs
     out = buf.getvalue()
@@ -65,13 +80,15 @@ def judge(outcome, nofail):
     return 'reports the plotfile %s without raising in failing mode' % outcome
 
 
-def explore_corr(mods, ref, corrs, res, viol, coords=False, label=None, both_modes=True):
+def explore_corr(mods, ref, corrs, res, viol, coords=False, label=None, both_modes=True, cli=False):
     label = label or ' + '.join(c.label for c in corrs)
+    if cli:
+        label = '`taste plt%s` on: %s' % (' --box_coords' if coords else '', label)
     cls = '+'.join(sorted(set(c.cls for c in corrs)))
-    for nofail in ((True, False) if both_modes else (True,)):
+    for nofail in ((False,) if cli else ((True, False) if both_modes else (True,))):
         def path(ctx, nofail=nofail):
             obl = Obl(ctx)
-            outcome, detail, _ = run_taster(mods, ref, corrs, nofail, ctx, coords)
+            outcome, detail, _ = run_taster(mods, ref, corrs, nofail, ctx, coords, cli=cli)
             obl.total += 1
             bad = judge(outcome, nofail)
             if bad is None:
@@ -85,9 +102,9 @@ def explore_corr(mods, ref, corrs, res, viol, coords=False, label=None, both_mod
         for ctx, obl in results:
             res.add_obl(obl)
             if obl.failed and not ctx.flags:
-                sig = 'C04/%s/%s' % (cls, 'accepted' if 'good' in obl.failed[0][0] else ('raises-nofail' if 'raises in non' in obl.failed[0][0] else 'no-raise-failmode'))
+                sig = 'C04/%s%s/%s' % ('cli/' if cli else '', cls, 'accepted' if 'good' in obl.failed[0][0] else ('raises-nofail' if 'raises in non' in obl.failed[0][0] else 'no-raise-failmode'))
                 if sig not in viol:
-                    viol[sig] = {'signature': sig, 'what': obl.failed[0][0], 'corrs': corrs, 'nofail': nofail, 'coords': coords,
+                    viol[sig] = {'signature': sig, 'what': obl.failed[0][0], 'corrs': corrs, 'nofail': nofail, 'coords': coords, 'cli': cli,
                                  'model': obl.failed[0][1], 'pc': ctx}
     return
 
@@ -104,8 +121,19 @@ def run_case(case):
         explore_corr(mods, ref, [c], res, viol, both_modes=(tier != 'quick' or i % 4 == 0))
         n += 1
     # box coordinates
-    for c in corrupt.coord_corruptions(ref, tier=tier):
+    ccs = corrupt.coord_corruptions(ref, tier=tier)
+    for c in ccs:
         explore_corr(mods, ref, [c], res, viol, coords=True)
+        n += 1
+    # the command line in failing mode: one corruption of every class, and the coordinate corruptions with --box_coords
+    seen_cls = set()
+    for c in singles:
+        if c.cls not in seen_cls:
+            seen_cls.add(c.cls)
+            explore_corr(mods, ref, [c], res, viol, cli=True)
+            n += 1
+    for c in ccs[:2 if tier == 'quick' else len(ccs)]:
+        explore_corr(mods, ref, [c], res, viol, coords=True, cli=True)
         n += 1
     # pairs: all pairs of kinds at curated site pairs
     bykind = {}
@@ -169,6 +197,9 @@ def make_replay(ref, v, pid):
            "with contextlib.redirect_stdout(io.StringIO()):\n"
            "    t = Taster(os.path.join(IN, 'plt'), nofail=%r, boxes_coordinates=%r)\n"
            "RESULT = 1.0 if bool(t) else 0.0\n" % (v['nofail'], v.get('coords', False)))
+    if v.get('cli'):
+        run = ("import sys, contextlib, io\nfrom amr_kitchen.taste import cli\nsys.argv = ['taste', os.path.join(IN, 'plt')] + %r\nRESULT = None\n"
+               "with contextlib.redirect_stdout(io.StringIO()):\n    cli.main()\nRESULT = 1.0\n" % (['--box_coords'] if v.get('coords') else [],))
     if v['nofail']:
         expected = {'kind': 'value', 'close': 0.0}
     else:
